@@ -39,7 +39,8 @@ def gen_case(rng):
     for s in rng.sample(S, rng.randint(1, 4)):
         for _ in range(rng.randint(0, 4)):
             triples.add((s, V, rng.choice(pool)))
-        if rng.random() < 0.7: triples.add((s, K, rng.choice(pool + [Literal("g")])))
+        if rng.random() < 0.7:
+            for _ in range(rng.choice([1, 1, 1, 2])): triples.add((s, K, rng.choice(pool + [Literal("g")])))
     where = ["group", [["bgp", [[v("s"), c(V), v("v")]]], ["optional", ["group", [["bgp", [[v("s"), c(K), v("k")]]]]]]]]
     if rng.random() < 0.15:
         where = ["group", [["bgp", [[v("s"), c(K), v("k")]]], ["optional", ["group", [["bgp", [[v("s"), c(V), v("v")]]]]]]]]
@@ -57,11 +58,15 @@ def gen_case(rng):
         spec["proj"] = proj
         spec["distinct"] = rng.random() < 0.3
         spec["reduced"] = (not spec["distinct"]) and rng.random() < 0.1
+        twin = rng.random() < 0.06
+        if twin:
+            # DISTINCT over fewer variables than the pattern binds, sorted on a proper subset of them: equal rows that are not neighbours in the sorted sequence
+            spec["proj"] = rng.choice([["s", "k"], ["s", "v"], ["k", "s"]]); spec["distinct"] = True; spec["reduced"] = False
         keys = []
         for _ in range(rng.choice([0, 1, 1, 2, 3])):
             kx = rng.choice([v("v"), v("k"), v("s"), ["call", "STR", v("v")], ["+", v("v"), c(Literal(1))], ["bound", "k"]])
             keys.append([kx, rng.random() < 0.5])
-        spec["orderby"] = keys
+        spec["orderby"] = keys if not twin else [[v("s"), rng.random() < 0.3]]
     else:
         grouped = rng.random() < 0.7
         aggs = []
